@@ -101,7 +101,10 @@ class Server(object):
         self.connected.add(jid)
         # a new TCP connection: whatever was queued for the old one is gone
         self.inbox[jid].clear()
-        self.to_client(jid, ProtocolTreeNode("success", {"creation": "1500000000", "props": "4", "t": str(self.now), "location": "frc"}))
+        # the login answer precedes anything stored for the client while it was offline
+        self.seq += 1
+        self.outbox[jid].appendleft((self.outbox[jid][0][0] - 0.5 if self.outbox[jid] else self.seq,
+                                     ProtocolTreeNode("success", {"creation": "1500000000", "props": "4", "t": str(self.now), "location": "frc"})))
 
     def on_disconnect(self, jid):
         self.connected.discard(jid)
